@@ -1977,13 +1977,22 @@ class RouteTr(Tr):
                 if not isinstance(block, list):
                     continue
                 for i, s in enumerate(block):
-                    if isinstance(s, ast.If) and self.is_chain(s) and i > 0 and self.is_letter(block[i - 1]):
+                    if isinstance(s, ast.If) and self.is_chain(s) and i > 0:
                         # an elif is the sole member of its parent's orelse: is_letter fails there
-                        found.append((block[i - 1], s))
+                        if self.is_letter(block[i - 1]):
+                            found.append(([block[i - 1]], s))
+                        elif i > 1 and self.is_letter(block[i - 2]) and self.is_flag(block[i - 1]):
+                            # one plain `name = <test>` between the letter and the chain
+                            found.append(([block[i - 2], block[i - 1]], s))
         if len(found) != 1:
             self.err(fn, "expected exactly one section-letter routing chain, found %d" % len(found))
-        letter, chain = found[0]
-        return [letter, self.rewrite(chain)]
+        head, chain = found[0]
+        return head + [self.rewrite(chain)]
+
+    @staticmethod
+    def is_flag(s):
+        return isinstance(s, ast.Assign) and len(s.targets) == 1 and isinstance(s.targets[0], ast.Name) \
+            and s.targets[0].id not in ("section_letter", "section_title", "sct_items")
 
     @staticmethod
     def is_letter(s):
@@ -2220,7 +2229,8 @@ SPECS = [
     dict(py="standardize_value", file="writer.py", cls=None, coq="py_standardize_value",
          params=[("value", DYN), ("unit", STR)], ret=DYN),
     dict(py="read", file="las.py", cls="LASFile", coq="py_route_key", translator=None,
-         params=[("section_title", STR)],
+         params=[("section_title", STR), ("version_is_3", BOOL)],
+         const_exprs={"provisional_version == 3.0": ("v_version_is_3", BOOL)},
          opaque_tests={"provisional_version == 3.0 and las3_section": "is_las3_section"}, ret=STR),
 ]
 SPECS[-1]["translator"] = RouteTr
